@@ -8,7 +8,9 @@ package main
 //   result   cfg-rejected | in=<accepted> out=<k> <status>×k left=<events still in flight>
 //
 // The action runs inside a real pipeline (fake input, devnull output, one processor, event
-// time-out 20 ms, action metric `c13m` with the given event fields as labels). Do is called on the
+// time-out 15 ms, action metric `c13m` with the given event fields as labels, add_host as a second
+// action downstream). A `T` in the event list is silence for 260 ms (heartbeat 200 ms + 4 time-outs): if the action is
+// busy the processor sends it a time-out event; the events after it must still flow. Do is called on the
 // processor goroutine, which has no recover: a panic there ends the (child) process and is
 // reported as crash:*. Every event handed to the output is checked like in c13.act.
 
@@ -72,7 +74,7 @@ func c13PipeDirect(t *hx.Toks, realStdout bool) string {
 	settings := &pipeline.Settings{
 		Capacity:                64,
 		MaintenanceInterval:     5 * time.Second,
-		EventTimeout:            20 * time.Millisecond,
+		EventTimeout:            15 * time.Millisecond,
 		Antispam:                pipeline.AntispamSettings{Threshold: -1},
 		AvgEventSize:            2048,
 		MaxEventSize:            ps.maxEventSize,
@@ -144,6 +146,18 @@ func c13PipeDirect(t *hx.Toks, realStdout bool) string {
 	infoCopy := *info
 	infoCopy.Config = config
 	infoCopy.Type = name
+	// a second action downstream (add_host): whatever the action under test lets through — a
+	// time-out event included — reaches a plugin that touches event.Root
+	ahInfo, err := fd.DefaultPluginRegistry.GetActionByType("add_host")
+	if err != nil {
+		return "bad-case"
+	}
+	ahConfig, err := pipeline.GetConfig(ahInfo, []byte(`{"field":"c13_host"}`), map[string]int{"capacity": 64, "gomaxprocs": 1})
+	if err != nil {
+		return "bad-case"
+	}
+	ahCopy := *ahInfo
+	ahCopy.Config = ahConfig
 	started := func() (ok bool) {
 		// metric registration refuses invalid / duplicate label names by panicking: start-up
 		// validation, not event processing
@@ -159,6 +173,12 @@ func c13PipeDirect(t *hx.Toks, realStdout bool) string {
 			MatchConditions:  pipeline.MatchConditions{},
 			MatchMode:        pipeline.MatchModeAnd,
 		})
+		p.AddAction(&pipeline.ActionPluginStaticInfo{
+			PluginStaticInfo: &ahCopy,
+			MetricName:       "c13h",
+			MatchConditions:  pipeline.MatchConditions{},
+			MatchMode:        pipeline.MatchModeAnd,
+		})
 		p.Start()
 		return true
 	}()
@@ -169,6 +189,10 @@ func c13PipeDirect(t *hx.Toks, realStdout bool) string {
 	src := "/k8s-logs/" + c13K8sPod + "_" + c13K8sNS + "_" + c13K8sContainer + "-" + c13K8sCID + ".log"
 	for i, e := range evs {
 		if e.kind == 'T' {
+			// silence on the stream for longer than the event time-out: a busy action gets a
+			// time-out event from the processor (stream.blockGet), then traffic goes on
+			// (the streamer's heartbeat looks for timed-out streams every 200 ms)
+			time.Sleep(200*time.Millisecond + 4*settings.EventTimeout)
 			continue
 		}
 		text := e.text
